@@ -779,7 +779,65 @@ def check_malformed(pool, recs, L, seed):
 
 
 # --------------------------------------------------------------------------------------------------
+def check_history(recs):
+    """select is an observer of the CURRENT topology: repeat a selection after in-place edits made through public
+    attributes (atom/residue names, residue numbers, segment ids) and compare with the reference on the edited records"""
+    import copy as _copy
+    chk = Check("history-after-in-place-edits", "Topology.select (repeated on one object with edits in between)",
+                bound="fixture topology; 6 selection strings; 4 in-place edits (rename atom, rename residue, renumber residue, set segment id); "
+                      "select before, edit, same string again",
+                rule="exhaustive over strings x edits; non-trivial = the edit changes the reference answer", exhaustive=True)
+    global _TOP, _RECS
+    strings = ["name CA", "resname ALA", "resSeq 1 to 2", "water and name O", "protein", "segment_id SOLV"]
+    edits = ["rename-atom", "rename-residue", "renumber-residue", "set-segment"]
+    for e in edits:
+        for sel in strings:
+            _TOP = None
+            top, recs0 = fixture_topology()
+            recs2 = _copy.deepcopy(recs0)
+            try:
+                first = sorted(int(i) for i in top.select(sel))
+            except Exception:
+                continue
+            res = top.residue(0)
+            if e == "rename-atom":
+                a = next(a for a in top.atoms if a.name == "CA")
+                a.name = "QX"
+                recs2[a.index]["name"] = "QX"
+                if recs2[a.index].get("backbone"):
+                    recs2[a.index]["backbone"], recs2[a.index]["sidechain"] = False, recs2[a.index]["protein"]
+            elif e == "rename-residue":
+                res.name = "HOH"
+                for r in recs2:
+                    if r["resid"] == 0:
+                        r.update(resname="HOH", protein=False, water=True, backbone=False, sidechain=False, rescode=None)
+            elif e == "renumber-residue":
+                res.resSeq = res.resSeq + 100
+                for r in recs2:
+                    if r["resid"] == 0:
+                        r["resSeq"] = r["resSeq"] + 100
+            else:
+                res.segment_id = "SOLV"
+                for r in recs2:
+                    if r["resid"] == 0:
+                        r["segment_id"] = "SOLV"
+            want = R.evaluate(sel, recs2)
+            if not isinstance(want, list):
+                continue
+            got = sorted(int(i) for i in top.select(sel))
+            inp = {"expr": sel, "edit": e, "history": True}
+            if got != sorted(want):
+                chk.fail("select-reflects-in-place-edits", f"repeat-after:{e}", f"select({sel!r}) repeated after {e} returns {got[:8]}..., the edited topology's answer is {sorted(want)[:8]}...",
+                         inp, observed=got[:20], expected=sorted(want)[:20])
+            else:
+                chk.ok(nontrivial=(e, sel) if sorted(want) != first else None, sample=inp)
+    _TOP = None
+    return chk
+
+
 def run(tier, seed, hint):
+    top, recs = fixture_topology()
+    c_hist = check_history(recs)
     top, recs = fixture_topology()
     L = leaves()
     workers = min(16, os.cpu_count() or 1)
@@ -791,11 +849,15 @@ def run(tier, seed, hint):
         c5, paren_limit = check_paren_depth(pool, recs, L, seed, set(bad))
         c3 = check_nesting(pool, recs, L, tier, seed, set(bad), paren_limit)
         c4 = check_malformed(pool, recs, L, seed)
-    return [c1, c2, c5, c3, c4]
+    return [c1, c2, c5, c3, c4, c_hist]
 
 
 def replay(payload):
     inp = payload.get("input") or payload.get("failing_input")
+    if inp.get("history"):
+        chk = check_history(None)
+        fl = [f for f in chk.failures if f["input"].get("edit") == inp.get("edit")]
+        return {"reproduced": bool(fl), "failures": fl[:3]}
     top, recs = fixture_topology()
     expr = inp["expr"]
     res = _select_both(expr)
